@@ -10,14 +10,22 @@ package main
 // error (e.g. concurrent map iteration and map write) kills this process: lib/checks/c14live.py runs it
 // as a child of its own and reports `broker-process-died` with the stderr tail.
 //
+// The broker context carries the distinct-IP journal exactly as main() builds it for -ip-count-log / -ip-count-mask /
+// -ip-count-interval (a sinkcluster.ClusterWriter over an append-mode file, interval 300 ms so that chunks are flushed during
+// the soak).  Every TCP connection of the soak's client is made from its own loopback source address (127.x.y.z), so the
+// polls reach the journal with distinct addresses, and waves of a few hundred /proxy polls released by one barrier go
+// through the same mux with forged RemoteAddr values (10.x.y.z, 2001:db8::x) - the accounting of many polls overlaps.
+//
 //   VERIF_DRIVER=brokersoak VERIF_SOAK_MS=<n> broker.test -test.run ^TestVerifHttpSoak$
 //   -> soak ok=<0|1> matches=<n> polls=<n> debug=<n> metrics=<n> prom=<n> misc=<n> bad=<n> first=<text>
 
 import (
 	"bytes"
+	"context"
 	"fmt"
 	"io"
 	"log"
+	"net"
 	"net/http"
 	"net/http/httptest"
 	"os"
@@ -29,9 +37,13 @@ import (
 	"testing"
 	"time"
 
+	"git.torproject.org/pluggable-transports/snowflake.git/v2/common/ipsetsink"
+	"git.torproject.org/pluggable-transports/snowflake.git/v2/common/ipsetsink/sinkcluster"
 	"git.torproject.org/pluggable-transports/snowflake.git/v2/common/messages"
 	"github.com/prometheus/client_golang/prometheus/promhttp"
 )
+
+var ptypesSoak = []string{"standalone", "badge", "webext", "iptproxy", "strange"}
 
 func TestVerifHttpSoak(t *testing.T) {
 	if os.Getenv("VERIF_DRIVER") != "brokersoak" {
@@ -52,6 +64,13 @@ func TestVerifHttpSoak(t *testing.T) {
 		t.Fatal(err)
 	}
 	ctx := NewBrokerContext(log.New(io.Discard, "", 0))
+	// as main() does with -ip-count-log <file> -ip-count-mask <key> -ip-count-interval 300ms
+	ipCountFile, err := os.OpenFile(filepath.Join(dir, "ip-count.log"), os.O_APPEND|os.O_CREATE|os.O_WRONLY, 0644)
+	if err != nil {
+		t.Fatal(err)
+	}
+	ipSetSink := ipsetsink.NewIPSetSink("verif-masking-key")
+	ctx.metrics.distinctIPWriter = sinkcluster.NewClusterWriter(ipCountFile, 300*time.Millisecond, ipSetSink)
 	go ctx.Broker()
 	i := &IPC{ctx}
 	mux := http.NewServeMux()
@@ -66,7 +85,19 @@ func TestVerifHttpSoak(t *testing.T) {
 	srv := httptest.NewUnstartedServer(mux)
 	srv.Config.ErrorLog = log.New(io.Discard, "", 0)
 	srv.Start()
-	hc := &http.Client{Transport: &http.Transport{MaxIdleConnsPerHost: 2000, MaxConnsPerHost: 0}, Timeout: 40 * time.Second}
+	// every connection from its own loopback source address (the broker sees it as the proxy's address); if this host
+	// does not let us bind 127.x.y.z the connection is made from the default address
+	var dialN uint32
+	dial := func(dctx context.Context, network, addr string) (net.Conn, error) {
+		n := atomic.AddUint32(&dialN, 1)
+		d := net.Dialer{LocalAddr: &net.TCPAddr{IP: net.IPv4(127, byte(1+n>>16&127), byte(n>>8), byte(n))}}
+		c, err := d.DialContext(dctx, network, addr)
+		if err != nil {
+			c, err = (&net.Dialer{}).DialContext(dctx, network, addr)
+		}
+		return c, err
+	}
+	hc := &http.Client{Transport: &http.Transport{DialContext: dial, MaxIdleConnsPerHost: 2000, MaxConnsPerHost: 0}, Timeout: 40 * time.Second}
 
 	var bad int64
 	var firstMu sync.Mutex
@@ -104,10 +135,44 @@ func TestVerifHttpSoak(t *testing.T) {
 		}
 	}
 	var wg sync.WaitGroup // the looping workers (the idle polls are not waited for: they last ProxyTimeout)
-	var matches, polls, debugs, metricsN, proms, misc int64
+	var matches, polls, debugs, metricsN, proms, misc, bursts int64
+
+	// waves of polls released together, through the mux with forged peer addresses: their IP accounting overlaps
+	// (they wait in the restricted pool for ProxyTimeout like the idle ones and are not waited for)
+	go func() {
+		for wave := 0; wave < 6 && !stopped(); wave++ {
+			start := make(chan struct{})
+			var ready sync.WaitGroup
+			const perWave = 400
+			for n := 0; n < perWave; n++ {
+				n := n + wave*perWave
+				ready.Add(1)
+				go func() {
+					body, _ := messages.EncodeProxyPollRequest(fmt.Sprintf("burst-%d", n), ptypesSoak[n%len(ptypesSoak)], []string{NATRestricted, NATUnknown}[n%2], n%9)
+					r, _ := http.NewRequest("POST", srv.URL+"/proxy", bytes.NewReader(body))
+					if n%5 == 4 {
+						r.RemoteAddr = fmt.Sprintf("[2001:db8::%x]:4000", n)
+					} else {
+						r.RemoteAddr = fmt.Sprintf("10.%d.%d.%d:4000", n>>16&255, n>>8&255, n&255)
+					}
+					w := httptest.NewRecorder()
+					ready.Done()
+					<-start
+					atomic.AddInt64(&bursts, 1)
+					mux.ServeHTTP(w, r)
+					if w.Code != 200 && !stopped() {
+						fail("burst proxy poll: status %d", w.Code)
+					}
+				}()
+			}
+			ready.Wait()
+			close(start)
+			time.Sleep(400 * time.Millisecond)
+		}
+	}()
 
 	// waiting proxies of every type / NAT class in the restricted pool (the clients below never take them)
-	ptypes := []string{"standalone", "badge", "webext", "iptproxy", "strange"}
+	ptypes := ptypesSoak
 	for n := 0; n < 200; n++ {
 		n := n
 		go func() {
@@ -267,7 +332,11 @@ func TestVerifHttpSoak(t *testing.T) {
 	firstMu.Lock()
 	f := first
 	firstMu.Unlock()
-	fmt.Printf("soak ok=%d matches=%d polls=%d debug=%d metrics=%d prom=%d misc=%d bad=%d first=%s\n", ok, matches, polls, debugs, metricsN, proms, misc, bad, f)
+	jsize := int64(-1)
+	if st, err := os.Stat(filepath.Join(dir, "ip-count.log")); err == nil {
+		jsize = st.Size()
+	}
+	fmt.Printf("soak ok=%d matches=%d polls=%d debug=%d metrics=%d prom=%d misc=%d bursts=%d conns=%d ipjournal=%d bad=%d first=%s\n", ok, matches, polls, debugs, metricsN, proms, misc, atomic.LoadInt64(&bursts), atomic.LoadUint32(&dialN), jsize, bad, f)
 	os.Stdout.Sync()
 	os.Exit(0)
 }
